@@ -3,14 +3,15 @@
 # scratch copy of /repo, runs the suite and every rule (survey); any non-ok rule
 # is a false alarm to be triaged. Developer tool; no registered check uses it.
 export GOFLAGS=-mod=mod GOPROXY=off GOSUMDB=off GOTOOLCHAIN=local GOWORK=off
+NRULES=$(/verif/bin/redactcheck -survey -repo /repo -verif /verif -oracle /verif/checker/oracle 2>/dev/null | grep -c '^SURVEY')
 for d in "$@"; do
   D=$(mktemp -d /tmp/benign.XXXXXX)
   rsync -a --exclude .git /repo/ $D/
   ( cd $D && git init -q . && git add -A && git commit -qm base >/dev/null && git apply "$d" ) || { echo "$d: DOES NOT APPLY"; rm -rf $D; continue; }
   ( cd $D && go build ./... && go test -vet=off -count=1 ./... >/dev/null 2>&1 ) || echo "$d: BUILD/TEST FAILS"
-  out=$(/verif/bin/redactcheck -survey -repo $D -verif /verif -oracle /verif/checker/oracle 2>&1)
+  out=$(timeout 600 /verif/bin/redactcheck -survey -repo $D -verif /verif -oracle /verif/checker/oracle 2>&1)
   bad=$(echo "$out" | grep '^SURVEY' | grep -v 'status=ok')
   n=$(echo "$out" | grep -c '^SURVEY')
-  if [ -z "$bad" ] && [ "$n" -gt 40 ]; then echo "$d: silent ($n rules)"; else echo "$d: ALARM"; echo "$bad" | sed 's/^/    /'; echo "$out" | grep -v '^SURVEY' | tail -3; fi
+  if [ -z "$bad" ] && [ "$n" -eq "$NRULES" ]; then echo "$d: silent ($n rules)"; else echo "$d: ALARM ($n of $NRULES rules ran)"; echo "$bad" | sed 's/^/    /'; echo "$out" | grep -v '^SURVEY' | tail -3; fi
   rm -rf $D
 done
